@@ -90,10 +90,14 @@ type Session struct {
 	Handles map[int64]afero.File
 	Timeout time.Duration
 	Wedged  bool
+	// Streaming: handles on which a streaming read may be in progress (its goroutine holds the
+	// drive until the stream is drained or the handle closed): while there are any, the harness
+	// does not walk the filesystem for its own observations (the walk would never return)
+	Streaming map[int64]bool
 }
 
 func NewSession(e *Env) *Session {
-	return &Session{E: e, Handles: map[int64]afero.File{}, Timeout: 10 * time.Second}
+	return &Session{E: e, Handles: map[int64]afero.File{}, Timeout: 10 * time.Second, Streaming: map[int64]bool{}}
 }
 
 // Exec runs one call against the real code under a watchdog and returns the `res` line.
@@ -110,6 +114,14 @@ func (s *Session) Exec(c Call) string {
 			}
 		}()
 		v, err := s.exec(c)
+		switch c.Method {
+		case "hwrite", "hwritestr", "hwriteat", "htruncate":
+			// entering write mode closes a streaming read — but only when the guards let the
+			// call get that far (a handle without the write flag keeps its stream)
+			if err == nil || ClassOf(err) != "permission" {
+				delete(s.Streaming, c.int(0))
+			}
+		}
 		ch <- out{v, err}
 	}()
 	select {
@@ -159,6 +171,12 @@ func (s *Session) Guard(f func()) bool {
 }
 
 func (s *Session) exec(c Call) (string, error) {
+	switch c.Method {
+	case "hread", "hreadat", "hseek":
+		s.Streaming[c.int(0)] = true
+	case "hclose":
+		delete(s.Streaming, c.int(0))
+	}
 	f := s.E.FS
 	switch c.Method {
 	case "initialize":
